@@ -411,20 +411,26 @@ func (c *NumberCondition) equal(d Condition) bool {
 	return true
 }
 
+func (ce *DataConditionElement) equal(oe *DataConditionElement) bool {
+	if !(ce.Flags == oe.Flags && ce.ConverterName == oe.ConverterName && ce.Regex == oe.Regex && ce.SubQuery == oe.SubQuery && len(ce.Variables) == len(oe.Variables)) {
+		return false
+	}
+	for j := 0; j < len(ce.Variables); j++ {
+		if ce.Variables[j] != oe.Variables[j] {
+			return false
+		}
+	}
+	return true
+}
+
 func (c *DataCondition) equal(d Condition) bool {
 	o, ok := d.(*DataCondition)
 	if !(ok && c.Inverted == o.Inverted && len(c.Elements) == len(o.Elements)) {
 		return false
 	}
 	for i := 0; i < len(c.Elements); i++ {
-		ce, oe := c.Elements[i], o.Elements[i]
-		if !(ce.Flags == oe.Flags && ce.ConverterName == oe.ConverterName && ce.Regex == oe.Regex && ce.SubQuery == oe.SubQuery && len(ce.Variables) == len(oe.Variables)) {
+		if !c.Elements[i].equal(&o.Elements[i]) {
 			return false
-		}
-		for j := 0; j < len(ce.Variables); j++ {
-			if ce.Variables[j] != oe.Variables[j] {
-				return false
-			}
 		}
 	}
 	return true
@@ -940,12 +946,41 @@ func (a Conditions) then(b Conditions) Conditions {
 		res = append(res, bdcs...)
 		return res
 	}
+	// the filters of a sequence that have to match (all but a negated last one)
+	matched := func(dc *DataCondition) []DataConditionElement {
+		if dc.Inverted {
+			return dc.Elements[:len(dc.Elements)-1]
+		}
+		return dc.Elements
+	}
 	for _, acc := range adcs {
 		adc := acc.(*DataCondition)
 		l := len(adc.Elements)
 		if adc.Inverted {
 			res = append(res, acc)
 			l--
+			// b continues behind the matched filters of a. If those of this sequence are only the
+			// beginning of another sequence of a, b continues behind that one, not here as well.
+			covered := false
+			for _, occ := range adcs {
+				om := matched(occ.(*DataCondition))
+				if len(om) <= l {
+					continue
+				}
+				covered = true
+				for i := 0; i < l; i++ {
+					if !adc.Elements[i].equal(&om[i]) {
+						covered = false
+						break
+					}
+				}
+				if covered {
+					break
+				}
+			}
+			if covered {
+				continue
+			}
 		}
 		for _, bcc := range bdcs {
 			bdc := bcc.(*DataCondition)
